@@ -420,6 +420,9 @@ def rule_plumbing(ctx):
     from . import plumbing
     plumbing.rule_close_transport(ctx, 'C17.b')
     plumbing.rule_sender_hooks(ctx, 'C17.b')
+    # keepalives restart with every connection (shared C15.c)
+    from .c15 import rule_c as c15c
+    c15c(ctx)
 
 
 RULES = [('C17.a', rule_a), ('C17.b', rule_b), ('C17.c', rule_c), ('C17.d', rule_d), ('C17.e', rule_e), ('C17.f', rule_f), ('C17.b', rule_plumbing)]
